@@ -1142,6 +1142,7 @@ impl InstrFormat for OldeEclHooks {
     }
 
     fn write_instr(&self, f: &mut BinWriter, emitter: &dyn Emitter, instr: &RawInstr) -> WriteResult {
+        llir::reject_terminal_opcode(emitter, instr)?;
         f.write_i32(instr.time)?;
         f.write_u16(instr.opcode)?;
         f.write_i16(llir::fit_header_field(emitter, instr, "size", self.instr_size(instr) as i64)?)?;
